@@ -169,12 +169,21 @@ def extra_phase(rep, tier, seed):
         np.linalg.solve = spy
         try:
             dcps = [pde.DirichletControlPoint(loc=p, val=v) for p, v in zip(case['pts'], case['vals'])]
-            cond = pde.CustomBoundaryCondition(center_point=pde.Point(case['center']), dirichlet_control_points=list(dcps))
+            shared = list(dcps)      # the caller's list: reused below for a second condition, as a user comparing centres would
+            cond = pde.CustomBoundaryCondition(center_point=pde.Point(case['center']), dirichlet_control_points=shared)
         except Exception as e:
             failing.append(dict(case=case, error=f'{type(e).__name__}: {e}'))
             continue
         finally:
             np.linalg.solve = orig
+        # a second condition built from the SAME list with another (valid) centre, before the first one is used:
+        # each condition must honour all control points whatever else has been built from that list
+        try:
+            pde.CustomBoundaryCondition(center_point=pde.Point((case['center'][0] + 0.07, case['center'][1] - 0.05)),
+                                        dirichlet_control_points=shared)
+            stats['second_condition_from_same_list'] = stats.get('second_condition_from_same_list', 0) + 1
+        except Exception:
+            pass
         stats['cases'] += 1
         stats['control_points'] += len(case['pts'])
         cleaned = [tuple(cp.loc) for cp in cond.dirichlet_control_points]
@@ -293,6 +302,28 @@ def search(seed, tier):
             kw['x_max_val' if m[1] == 'd' else 'x_max_prime'] = (lambda t: F(full(x1), t)) if m[1] == 'd' else (lambda t: Fx(full(x1), t))
             cond = IBVP1D(x0, x1, tm, lambda x: F(x, full(tm)), **kw)
             cond.ith_unit = unit
+            # a user who precomputes the boundary data: the callables hand back the same stored tensors for the same batch;
+            # an earlier evaluation (other times) must not change what the condition yields at t_min
+            store = {}
+
+            def stored(fn):
+                def g_(z, fn=fn):
+                    k = (id(fn), z.detach().numpy().tobytes())
+                    if k not in store:
+                        store[k] = fn(z).detach()
+                    return store[k]
+                return g_
+            cond_s = IBVP1D(x0, x1, tm, stored(lambda x: F(x, full(tm))), **{k_: stored(v_) for k_, v_ in kw.items()})
+            cond_s.ith_unit = unit
+            try:
+                cond_s.enforce(net, xs, ts)
+                cond_s.enforce(net, xs, ts)
+                got = cond_s.enforce(net, xs, full(tm)).detach(); want = F(xs, full(tm)).detach()
+                if got.shape == want.shape and not torch.allclose(got, want, rtol=1e-10, atol=1e-10 * (1 + float(want.abs().max()) + float(got.abs().max()))):
+                    found.append(dict(case='ibvp_' + m, where='initial profile after earlier evaluations with precomputed (stored) boundary data',
+                                      x0=x0, x1=x1, tm=tm, F=[a, b, c, d], got=got.reshape(-1).tolist(), want=want.reshape(-1).tolist()))
+            except Exception as e:
+                found.append(dict(case='ibvp_' + m, unit=unit, error=f'{type(e).__name__}: {e}', stored_data=True, x0=x0, x1=x1, tm=tm))
             try:
                 got = cond.enforce(net, xs, full(tm)).detach(); want = F(xs, full(tm)).detach()
             except Exception as e:
